@@ -284,7 +284,7 @@ def run(ctx):
 
 def _body(ctx):
     core.build_harness(bins=["solve", "rules"])
-    progs, cases = rl.gen_programs(ctx, "auto", ctx.n(36, 400), ctx.n(7, 12))
+    progs, cases = rl.gen_programs(ctx, "auto", ctx.n(30, 400), ctx.n(7, 12))
     # corpus programs ride along as additional programs
     for p, gs in corpus_cases():
         p.text, p.model = rg.to_text(p), rg.to_model(p)
@@ -294,7 +294,7 @@ def _body(ctx):
             c = rl.Case(pidx, p, a, "goal")
             c.text = rg.goal_text(a)
             cases.append(c)
-    hs = histories(ctx, progs[:-2], ctx.n(2, 6))
+    hs = histories(ctx, progs[:-2], ctx.n(1, 6))
     # the F7 witness itself (A: Send then B: Send), and the coinductive_unsound shapes in several orders
     cp = len(progs) - 2
     hs.append((cp, [("Send", (("adt", "A", ()),)), ("Send", (("adt", "B", ()),)), ("Send", (("adt", "X", ()),)), ("Send", (("adt", "Y", ()),))]))
